@@ -183,6 +183,47 @@ def h_direct(h, via):
                 Cond(b=bool(abs(np.ravel(probe)[0] - math.exp(-2.5 ** 0.5)) < 1e-12)))
 
 
+def h_default_tables(h):
+    """A potential constructed with useDefaultInterpolation=True uses the shipped tables with
+    adaptive updates off and CONSTANT continuation on both sides: beyond the table the integrals keep
+    their edge values (heavy species stay Boltzmann-suppressed: |J| never grows again above x = 1000)."""
+    from WallGo.interpolatableFunction import EExtrapolationType
+
+    class _P(EffectivePotentialNoResum):
+        fieldCount = 1
+
+        def bosonInformation(self, fields, temperature):
+            raise NotImplementedError
+
+        def fermionInformation(self, fields, temperature):
+            raise NotImplementedError
+
+        def evaluate(self, fields, temperature):
+            raise NotImplementedError
+    pot = _P(useDefaultInterpolation=True)
+    h.prove("the shipped default integrals are used", Cond(b=pot.integrals is defaultIntegrals))
+    for name in ("Jb", "Jf"):
+        J = getattr(pot.integrals, name)
+        h.prove(f"{name}: table present, no adaptive rebuilding", Cond(
+            b=J.hasInterpolation() and not J._bUseAdaptiveInterpolation))
+        h.prove(f"{name}: constant continuation below and above the table", Cond(
+            b=J.extrapolationTypeLower == EExtrapolationType.CONSTANT
+            and J.extrapolationTypeUpper == EExtrapolationType.CONSTANT))
+        lo, hi = J.interpolationRangeMin(), J.interpolationRangeMax()
+        edge_hi = np.ravel(J(hi))[0]
+        edge_lo = np.ravel(J(lo))[0]
+        for x in (hi * 1.001, 2e3, 1e4, 1e6, 1e8):
+            h.prove(f"{name}({x:g}) above the table = edge value (no growth for heavy species)",
+                    Cond(b=bool(np.ravel(J(x))[0] == edge_hi) and abs(edge_hi) < 1e-10))
+        for x in (lo - 0.5, lo * 3.0, -1e4):
+            h.prove(f"{name}({x:g}) below the table = edge value", Cond(b=bool(np.ravel(J(x))[0] == edge_lo)))
+        xs = np.array([[lo - 1.0, 0.3], [hi + 5.0, 1e5]])
+        out = np.asarray(J(xs))
+        h.prove(f"{name}: array input, mixed in/out of range, per element", Cond(
+            b=out.shape[:2] == (2, 2) and bool(out[0, 0].ravel()[0] == edge_lo) and bool(out[1, 0].ravel()[0] == edge_hi)
+            and bool(out[1, 1].ravel()[0] == edge_hi) and bool(out[0, 1].ravel()[0] == np.ravel(J(0.3))[0])))
+
+
 # ---- integrands and the piecewise assembly of Jb / Jf ------------------------------------
 
 def trig_axioms(e):
@@ -322,6 +363,8 @@ HARNESSES = [
                encodes=[EffectivePotentialNoResum.potentialOneLoopThermal], random_validation=2),
     HarnessDef("default-integrals-are-direct", h_direct, [dict(via="potential"), dict(via="Integrals")], max_paths=2,
                timeout_s=60, encodes=[IG.Integrals.__init__, EffectivePotentialNoResum.__init__], random_validation=1),
+    HarnessDef("default-tables-configuration", h_default_tables, [dict()], max_paths=2, timeout_s=60,
+               encodes=[EffectivePotentialNoResum.__init__], random_validation=1),
     HarnessDef("integrands", h_integrand, [dict(kind=k, region=r) for k in ("b", "f") for r in ("pos", "neg")],
                max_paths=20, timeout_s=60, axioms=[trig_axioms],
                encodes=[IG.JbIntegral._functionImplementation, IG.JbIntegral._integrandPositiveReal,
